@@ -22,7 +22,7 @@ META = {
         "thorough": {"evaluations": 300000, "distinct_nontrivial": 30000, "tables": {"axioms": 100000, "sectors": 50000, "cross-symmetry/later-step-with-sectors": 40000}},
     },
     "exhaustive": {"quick": False, "thorough": True},
-    "wall": {"quick": 300, "thorough": 1500},
+    "wall": {"quick": 900, "thorough": 1500},
     "assumptions": [
         "RefSym (symv/refsym.py) is the reference group arithmetic",
         "group elements outside the stated boxes are not explored for U1-type symmetries",
